@@ -32,9 +32,26 @@ var solvers = []solver{
 }
 
 func runSolver(s solver, file string, toS int) (string, float64) {
-	ctx, cancel := context.WithTimeout(context.Background(), time.Duration(toS*3+20)*time.Second)
+	return runSolverN(s, file, toS, 1)
+}
+
+// runSolverN: nChecks check-sat commands in the file, each with soft timeout toS.
+func runSolverN(s solver, file string, toS int, nChecks int) (string, float64) {
+	hard := toS*3 + 20
+	if nChecks > 1 {
+		hard = toS*nChecks/4 + 120
+	}
+	ctx, cancel := context.WithTimeout(context.Background(), time.Duration(hard)*time.Second)
 	defer cancel()
 	a := s.args(file, toS)
+	if nChecks > 1 {
+		// replace the hard -T limit
+		for i := range a {
+			if strings.HasPrefix(a[i], "-T:") {
+				a[i] = fmt.Sprintf("-T:%d", hard)
+			}
+		}
+	}
 	cmd := exec.CommandContext(ctx, a[0], a[1:]...)
 	var out bytes.Buffer
 	cmd.Stdout = &out
@@ -74,9 +91,10 @@ func solveUnit(u *Unit, cfg *SolverCfg, only func(*Obligation) bool) {
 	if sc == nil || len(sc.obs) == 0 {
 		return
 	}
+	sc.timeoutMs = cfg.TimeoutS * 1000
 	inc := sc.renderIncremental()
 	f := tmpFile(cfg, inc)
-	out, dt := runSolver(solvers[0], f, cfg.TimeoutS)
+	out, dt := runSolverN(solvers[0], f, cfg.TimeoutS, len(sc.obs))
 	os.Remove(f)
 	var results []string
 	for _, l := range strings.Split(out, "\n") {
@@ -107,11 +125,11 @@ func solveUnit(u *Unit, cfg *SolverCfg, only func(*Obligation) bool) {
 		if only != nil && !only(ob) {
 			continue
 		}
-		want := "unsat"
 		if ob.Cover {
-			want = "sat"
-		}
-		if r == want && !(cfg.All && !ob.Cover) {
+			if r != "unsat" {
+				continue // sat or inconclusive: not vacuous as far as can be told
+			}
+		} else if r == "unsat" && !cfg.All {
 			continue
 		}
 		wg.Add(1)
